@@ -258,11 +258,15 @@ class Repo:
         return cands[0]
 
     def has_cls(self, name) -> bool:
+        cache = self.__dict__.setdefault("_has_cache", {})
+        if name in cache:
+            return cache[name]
         try:
             self.cls(name)
-            return True
+            cache[name] = True
         except (AnchorMissing, AnalysisError):
-            return False
+            cache[name] = False
+        return cache[name]
 
     def fn(self, qual) -> Func:
         """'gene.cds:CDSInterval.translate' or 'util.bins:bins'; nested: 'mod:Cls.meth.<inner>'"""
@@ -323,6 +327,13 @@ class Repo:
         return out
 
     def mro(self, c: Class) -> List[Class]:
+        cache = self.__dict__.setdefault("_mro_cache", {})
+        if id(c) in cache:
+            return cache[id(c)]
+        cache[id(c)] = self._mro(c)
+        return cache[id(c)]
+
+    def _mro(self, c: Class) -> List[Class]:
         seen, out = set(), []
 
         def visit(k):
@@ -337,10 +348,17 @@ class Repo:
         return out
 
     def lookup_method(self, c: Class, name: str) -> Optional[Func]:
+        cache = self.__dict__.setdefault("_lm_cache", {})
+        key = (id(c), name)
+        if key in cache:
+            return cache[key]
+        res = None
         for k in self.mro(c):
             if name in k.methods:
-                return k.methods[name]
-        return None
+                res = k.methods[name]
+                break
+        cache[key] = res
+        return res
 
     def lookup_attr(self, c: Class, name: str):
         for k in self.mro(c):
